@@ -78,6 +78,7 @@ type IterState struct {
 	MapType  *types.Map
 	Visited  Term // (Array K Bool)
 	Count    Term
+	LastKey  Term
 	IsString bool
 	Str      Term
 	Pos      Term
@@ -105,6 +106,13 @@ type State struct {
 	Spawned      bool
 	LocksTouched []Term
 	OwnedClose   []Term
+	Universals   []universal
+}
+
+// universal is an assumed forall kept for later instantiation at new terms.
+type universal struct {
+	sort Sort
+	inst func(t Term) (Term, bool)
 }
 
 func NewState() *State {
@@ -133,6 +141,7 @@ func (s *State) Clone() *State {
 		Spawned:      s.Spawned,
 		LocksTouched: append([]Term(nil), s.LocksTouched...),
 		OwnedClose:   s.OwnedClose,
+		Universals:   append([]universal(nil), s.Universals...),
 	}
 	for k, v := range s.Mem {
 		n.Mem[k] = v
